@@ -2,6 +2,7 @@ package util
 
 import (
 	"github.com/pkg/errors"
+	"io"
 	"sync"
 	"time"
 )
@@ -31,6 +32,18 @@ type InQueue struct {
 	queueHasData   bool       // Boolean specifiying if there's any data in the queue
 	queueNotifiers []func()   // A list of waiters to notify when the queue has data
 	readDeadline   time.Time
+	closed         bool // The connection is over: once drained, Read returns io.EOF
+}
+
+// Close marks the end of the stream and wakes up blocked readers. What is already queued can still be read.
+func (q *InQueue) Close() {
+	q.queueMutex.Lock()
+	q.closed = true
+	for _, f := range q.queueNotifiers {
+		f()
+	}
+	q.queueNotifiers = q.queueNotifiers[0:0]
+	q.queueMutex.Unlock()
 }
 
 // HasData returns true if there's any data waiting in the queue to be read
@@ -70,6 +83,10 @@ func (q *InQueue) waitNonEmtpyQueue() error {
 		q.queueMutex.Unlock()
 		return nil
 	}
+	if q.closed {
+		q.queueMutex.Unlock()
+		return io.EOF
+	}
 
 	wait := make(chan struct{}, 0)
 	q.queueNotifiers = append(q.queueNotifiers, func() {
@@ -103,6 +120,16 @@ func (q *InQueue) Read(p []byte) (n int, err error) {
 
 	q.mutex.Lock()
 	defer q.mutex.Unlock()
+
+	if len(q.in) == 0 {
+		// Woken up by Close, not by data
+		q.queueMutex.Lock()
+		closed := q.closed
+		q.queueMutex.Unlock()
+		if closed {
+			return 0, io.EOF
+		}
+	}
 
 	copied := copy(p, q.in)
 	q.in = q.in[copied:]
